@@ -329,6 +329,49 @@ void World::checkPlansStorage(int i, const Op& op, const Obs& before) {
 
 // ---- C14: payload attribution ----------------------------------------------------------------------------------------------------
 
+// C02: "picks its sub-state by the request kind" starts with the request being queued as the kind (and destination) the caller named
+void World::checkIssuedKinds(int i, const Op& op, const Obs& before) {
+	if (!wants("C02")) return;
+	Slot& s = slots[size_t(i)];
+	if (!s.obs.alive || !before.alive) return;
+	Harness& h = *s.h;
+	if (op.kind == OP_DELIVER || op.kind == OP_SNAPSHOT || op.kind == OP_RESTART || op.kind == OP_ENTER || op.kind == OP_RESET) return;
+	char b[300];
+	auto same = [](const Tr& x, const Tr& y) { return x.kind == y.kind && x.dest == y.dest && x.origin == y.origin; };
+	const int fge = firstGuardEvent(h);
+	std::vector<Tr> issued = before.queued;
+	const size_t own = issued.size();
+	for (size_t k = 0; k < h.trace.size(); ++k) {
+		const Ev& e = h.trace[k];
+		if (e.k == EV_ISSUE && (fge < 0 || int(k) < fge)) { Tr t; t.origin = e.state; t.kind = e.a; t.dest = e.b; issued.push_back(t); }
+	}
+	if (issued.size() == own) return;
+	if (op.kind == OP_REQUEST && h.guards.empty()) {
+		// nothing is processed: the queue grows by exactly what was asked for
+		checked("C02.request_as_issued");
+		const auto& q = s.obs.queued;
+		bool ok = q.size() == issued.size();
+		for (size_t k = 0; ok && k < q.size(); ++k) ok = same(q[k], issued[k]);
+		if (!ok) {
+			std::snprintf(b, sizeof b, "%s: the client asked for %s(%d); the queue now holds %zu request(s)%s%s", h.role.c_str(), kindName(issued.back().kind), issued.back().dest, q.size(),
+				q.empty() ? "" : ", the last one being ", q.empty() ? "" : (std::string(kindName(q.back().kind)) + "(" + std::to_string(q.back().dest) + ")").c_str());
+			violate("C02.request_as_issued", b, i);
+		}
+		return;
+	}
+	if (!h.guards.empty() && int(issued.size()) <= h.shape->compoCount) {
+		checked("C02.request_as_issued");
+		const auto& pend = h.guards.front().pending;
+		size_t j = 0;
+		for (size_t k = 0; k < pend.size() && j < issued.size(); ++k) if (same(pend[k], issued[j])) ++j;
+		if (j != issued.size()) {
+			const Tr& t = issued[j];
+			std::snprintf(b, sizeof b, "%s: %s(%d) was asked for (by %d) but is not, as that kind and destination and in order, among what the first guard round sees as pending", h.role.c_str(), kindName(t.kind), t.dest, t.origin);
+			violate("C02.request_as_issued", b, i);
+		}
+	}
+}
+
 void World::checkPayloads(int i, const Op& op, const Obs& before) {
 	if (!wants("C14")) return;
 	Slot& s = slots[size_t(i)];
